@@ -39,8 +39,15 @@ class ProcLoop:
         st.next_id = nid
         for n in ast.walk(node):
             if isinstance(n, ast.Name) and isinstance(n.ctx, ast.Store):
+                cur = st.loc.get(n.id)
+                if isinstance(cur, V.Value) and not isinstance(cur, (SList,)):
+                    try:
+                        st.loc[n.id] = _fresh_like(cur, "%s.%s" % (tag, n.id))   # bound before the loop: some value
+                        continue
+                    except Unsupported:
+                        pass
                 st.loc[n.id] = None
-        for k in ("tokens", "puts", "gets", "waits", "consults", "spawned", "packed", "slots", "requests"):
+        for k in ("tokens", "puts", "gets", "waits", "consults", "spawned", "packed", "slots", "requests", "created"):
             st.ghost[k] = []
         st.ghost.pop("can_fact", None)
         st.ghost["epoch"] = 0
@@ -138,7 +145,7 @@ def install(lib):
         pre=lambda st, args: [("state-known", st.f["state"].t == sc("COLLECTING_STATE"))],
         modifies=(TT + "COLLECTING_STATE", "state", "stats.last_state_change_time"), uses_inv=False, keeps_inv=False,
         props=("C17",))
-    C["Sink"]["update_state"].source_class = "Node"
+    C["Sink"]["update_state"].source = ("nodes/node.py", "Node")
     C["Sink"]["reset"] = FnContract("reset", [], post=lambda c: [Def("state", VStr("COLLECTING_STATE"), ("C17",))],
                                     modifies=("state",), uses_inv=False, keeps_inv=False, props=("C17",))
 
